@@ -242,6 +242,13 @@ class Pkg:
         self.ok = self.gen["exception"] is None and os.path.isdir(os.path.join(parent, PKG)) and not any(
             d["level"] == "ERROR" for d in self.gen["diagnostics"] or [])
         self.index: dict[str, dict] = {}
+        # responses the generator declined WITH a diagnostic: (METHOD, path) -> {status: reason}
+        self.declined_responses: dict[tuple[str, str], dict[int, str]] = {}
+        for d in self.gen["diagnostics"] or []:
+            mh = re.match(r"WARNING parsing (\w+) (\S+) within", d.get("header") or "")
+            md = re.match(r"Cannot parse response for status code (\d+)(?: \((.*)\))?, response will be omitted", (d.get("detail") or "").replace("\n", " "))
+            if mh and md:
+                self.declined_responses.setdefault((mh.group(1).upper(), mh.group(2)), {})[int(md.group(1))] = md.group(2) or ""
         if not self.ok:
             return
         from openapi_python_client import utils
@@ -521,6 +528,14 @@ class World:
             return obs
         shape = f"{'doc' if b.get('documented') else 'undoc'}:{b.get('source')}:{inst.classify(self._resp_schema(op, st), self.doc) if b.get('documented') and self._resp_schema(op, st) else '-'}"
         self.states.add(f"resp|{shape}|{'enum' if st not in NON_ENUM_STATUSES else 'non-enum'}|raise={raise_flag}|{prep['variant']}|{'async' if prep.get('async') else 'sync'}")
+        reason = self.pkg.declined_responses.get((op["method"].upper(), op["path"]), {}).get(st)
+        if b.get("documented") and reason is not None and "Unsupported content_type" not in reason:
+            # the generator declined this response with a diagnostic about its SCHEMA (e.g. it depends on a schema that was
+            # removed): accounted for by the diagnostic (C07's subject), not judged here.  A response declined because its
+            # media type is 'unsupported' IS judged: the property lists the media types that must be handled.
+            self.probe("documented-response-declined-with-diagnostic(skipped: C07)")
+            obs["outcome"] = None
+            return obs
         if b.get("documented"):
             if exc is not None:
                 self.v("C04", "documented-status-raised", f"{type(exc).__name__}@{shape}", f"{prep['opid']} status {st} ({b.get('media_type')}): raised {type(exc).__name__}: {str(exc)[:300]}; body={b['content'][:200]!r}")
